@@ -882,7 +882,8 @@ pub fn decode(code: &[u8], at: usize) -> Option<Insn> {
             _ => break,
         }
         rounds += 1;
-        if rounds > 5 {
+        // at most 4 prefix bytes (e.g. LOCK, 66, F2/F3, REX); longer runs are not offered
+        if rounds > 3 {
             return None;
         }
         b = c.u8();
